@@ -298,6 +298,10 @@ def main(modname, argv):
     broken = []
     if not st['translator']['ok']:
         broken.append('translator: ' + st['translator']['message'].split('\n')[-1][:300])
+    for gf, msg in st['translator'].get('failed', {}).items():
+        # a table the translator can no longer read breaks the properties whose theorems are about that table; the others run on the last good copy
+        if prop in st['translator'].get('owners', {}).get(gf, []):
+            broken.append('translator: Gen/%s: %s' % (gf, msg[:300]))
     failed = [f for f in st['coq']['failed'] if f in clos or f == '<make>' or f == '_CoqProject']
     # a file that failed makes everything depending on it unbuilt
     for f in failed:
@@ -344,6 +348,7 @@ def main(modname, argv):
         broken.append('driver: ' + st['driver']['message'][-300:])
 
     disagreements, findings, harness_errors = [], [], []
+    other_property = 0      # wide-stream differences outside this property's observables (another property's check reports them)
     seen, dist = set(), {}
     nontrivial = 0
     samples = {}
@@ -357,6 +362,12 @@ def main(modname, argv):
             findings.append((c, r, o))
         m = model_res[i] if model_res is not None else None
         if m is not None and m != r:
+            if c.tag.startswith('wide /') and prop != 'C04':
+                # the wide stream runs under every client property: a difference counts here only if it shows in what THIS property observes
+                from harness import clientlib
+                if not clientlib.wide_relevant(prop, c, r, m):
+                    other_property += 1
+                    continue
             disagreements.append((c, r, m))
         key = c.line()
         if key not in seen:
@@ -430,6 +441,7 @@ def main(modname, argv):
             'samples': list(samples.values())[:12],
             'traces_validated_against_impl': len(cases) - len(disagreements) if model_res is not None else 0,
             'correspondence_disagreements': len(disagreements),
+            'differences_outside_this_property': other_property,
             'oracle_failures': len(findings), 'known_findings_reproduced': sorted(reproduced),
             'input_distribution': dist,
             'exhaustive': bool(getattr(mod, 'EXHAUSTIVE', False)),
